@@ -199,7 +199,11 @@ func xbinNontrivial(w []string) (string, bool) {
 
 func xbinExec(ctx *Ctx, w []string) {
 	op := strings.Join(w, " ")
-	if why, nt := xbinNontrivial(w); nt {
+	// (the classification below calls the decoders as well: under the same guard / watchdog as the call proper)
+	var why string
+	var nt bool
+	guard(func() string { why, nt = xbinNontrivial(w); return "" })
+	if nt {
 		dec := w[0] == "ub" || w[0] == "uu" || w[0] == "uf"
 		if ctx.Focus == "" || (ctx.Focus == "C16") == dec {
 			ctx.R.Nontrivial(why)
